@@ -562,6 +562,18 @@ def judge(ctx, req, case, tags, r):
             ctx.count("filter:kept=%s" % ("all" if n1 == n0 else "none" if n1 == 0 else "some"))
 
 
+def guarded(ctx, case, tags, fn):
+    """the real code raising while a receiver's history is rebuilt or while the table is observed (not in the
+    observed call itself, whose exceptions are observations) is a failure of the property's code, not of the harness"""
+    try:
+        return fn()
+    except Exception as e:
+        import traceback
+        ctx.fail(dict(case, raised=repr(e), where=traceback.format_exc()[-600:]),
+                 "real-code-raised-outside-the-observed-call", list(tags) + ["impl=" + str(case.get("impl"))])
+        return None
+
+
 def do_filter(ctx, batch, impl, mods, recipe, axis, keep, form, invert, inplace, tags=(), rng=None, deep=None,
               opts=None):
     case = {"kind": "filter", "recipe": recipe, "axis": axis, "keep": keep, "form": form, "invert": invert,
@@ -574,7 +586,10 @@ def do_filter(ctx, batch, impl, mods, recipe, axis, keep, form, invert, inplace,
     ctx.case(case, nontrivial=len(spec["obs"]) * len(spec["samp"]) >= 2)   # journalled BEFORE the code under test runs
     if deep is None:
         deep = ctx.evaluations % 8 == 0
-    req = run_filter(recipe, axis, keep, form, invert, inplace, mods, rng, deep=deep, opts=opts)
+    req = guarded(ctx, case, tags, lambda: run_filter(recipe, axis, keep, form, invert, inplace, mods, rng, deep=deep,
+                                                       opts=opts))
+    if req is None:
+        return
     if recipe.get("poke") is not None:
         ctx.count("receiver:layout-poked")
     lay = req["layout"]
@@ -591,7 +606,9 @@ def do_remove_empty(ctx, batch, impl, mods, recipe, axis, inplace, tags=(), opts
     if opts:
         case["opts"] = opts
     ctx.case(case)
-    req = run_remove_empty(recipe, axis, inplace, mods, opts=opts)
+    req = guarded(ctx, case, tags, lambda: run_remove_empty(recipe, axis, inplace, mods, opts=opts))
+    if req is None:
+        return
     ctx.count("remove_empty:axis=%s" % axis)
     batch.add(req, case, ["impl=" + impl, "remove_empty", "axis=" + axis] + list(tags))
 
@@ -599,7 +616,9 @@ def do_remove_empty(ctx, batch, impl, mods, recipe, axis, inplace, tags=(), opts
 def do_refused(ctx, batch, impl, mods, recipe, what, tags=()):
     case = {"kind": "refused", "recipe": recipe, "what": what, "impl": impl}
     ctx.case(case)
-    req = run_refused(recipe, what, mods)
+    req = guarded(ctx, case, tags, lambda: run_refused(recipe, what, mods))
+    if req is None:
+        return
     ctx.count("refused:%s" % what)
     batch.add(req, case, ["impl=" + impl, "refused", what] + list(tags))
 
@@ -609,7 +628,9 @@ def do_head(ctx, batch, impl, mods, recipe, n, m, tags=(), opts=None):
     if opts:
         case["opts"] = opts
     ctx.case(case)
-    req = run_head(recipe, n, m, mods, opts=opts)
+    req = guarded(ctx, case, tags, lambda: run_head(recipe, n, m, mods, opts=opts))
+    if req is None:
+        return
     ctx.count("head:%s" % ("refused" if "error" in req["obs"]["result"] else "block"))
     batch.add(req, case, ["impl=" + impl, "head"] + list(tags))
 
@@ -729,8 +750,11 @@ class Shards:
     cases), each with its own Lean driver; with pool=0 (thorough tier: ./check already runs several workers,
     each taking the grids `ctx.mine(k)`) the shard runs inline"""
 
+    live = []
+
     def __init__(self, ctx, batch, impls, grids, full_upto, pool):
         self.ctx, self.pending, self.pool = ctx, [], None
+        Shards.live.append(self)
         if pool <= 0:
             exhaustive_chunk(ctx, batch, impls, grids, full_upto)
             return
@@ -772,6 +796,16 @@ class Shards:
         if self.pool is not None:
             self.pool.close()
             self.pool.join()
+            self.pool = None
+        self.abandon()
+
+    def abandon(self):
+        if self in Shards.live:
+            Shards.live.remove(self)
+        if self.pool is not None:
+            self.pool.terminate()
+            self.pool.join()
+            self.pool = None
         for f in self.journals():
             try:
                 os.remove(f)
@@ -818,7 +852,9 @@ def random_cases(ctx, batch, impls, n_cases, max_dim):
         recipe = {"spec": spec, "route": rng.choice(core.ROUTES + ["perm_sort"]), "hist": random_hist(rng, spec)}
         if rng.random() < 0.5:
             recipe["poke"] = rng.randrange(10 ** 6)       # leave the receiver in a random internal layout
-        t = make_receiver(recipe)
+        t = guarded(ctx, {"kind": "receiver", "recipe": recipe}, ("random",), lambda: make_receiver(recipe))
+        if t is None:
+            continue
         axis = rng.choice(["observation", "sample"])
         ids = [str(x) for x in t.ids(axis=axis)]
         impl, mods = impls[rng.randrange(len(impls))]
@@ -853,7 +889,9 @@ def unknown_id_cases(ctx, batch, impls, n_cases, fixed=True):
     for _ in range(n_cases):
         spec = core.gen_spec(rng, max_n=4, max_m=4, classes=("smallcount", "neg"))
         recipe = {"spec": spec, "route": rng.choice(core.ROUTES + ["perm_sort"]), "hist": random_hist(rng, spec)}
-        t = make_receiver(recipe)
+        t = guarded(ctx, {"kind": "receiver", "recipe": recipe}, ("unknown-id",), lambda: make_receiver(recipe))
+        if t is None:
+            continue
         axis = rng.choice(["observation", "sample"])
         ids = [str(x) for x in t.ids(axis=axis)]
         other = [str(x) for x in t.ids(axis="sample" if axis == "observation" else "observation")]
@@ -1140,7 +1178,10 @@ def hardening_cases(ctx, batch, impls, n_cases, first=True):
         target = c % len(kinds)
         recipe = {"spec": spec, "route": rng.choice(["dense", "csr", "csc", "perm_sort"]),
                   "family": {"kinds": kinds, "target": target}, "poke": rng.randrange(10 ** 6)}
-        t, _ = make_family(recipe)
+        fam = guarded(ctx, {"kind": "receiver", "recipe": recipe}, ("family",), lambda: make_family(recipe))
+        if fam is None:
+            continue
+        t = fam[0]
         axis = rng.choice(["observation", "sample"])
         ids = [str(x) for x in t.ids(axis=axis)]
         impl, mods = impls[c % len(impls)]
@@ -1258,6 +1299,15 @@ def corpus(ctx, batch, impls):
 
 
 def run(ctx):
+    try:
+        _run(ctx)
+    finally:
+        # whatever happens, no forked shard and no shard journal is left behind
+        for sh in list(Shards.live):
+            sh.abandon()
+
+
+def _run(ctx):
     impls = [(n, m) for n, m in kernels.kernel_impls() if m is not None]
     for n, m in kernels.kernel_impls():
         if m is None:
